@@ -74,6 +74,21 @@ def inline_test_temporaries(tree):
     return count
 
 
+def orient_comparisons(tree):
+    """Normalisation: every single ordering comparison is read in its `<` form
+    (``a > b`` as ``b < a``, ``a >= b`` as ``b <= a``).  Rules about thresholds
+    and cut-offs are stated on that form, so they do not depend on which way
+    round a comparison happens to be written.  Returns the number rewritten."""
+    count = 0
+    for node in ast.walk(tree):
+        if isinstance(node, ast.Compare) and len(node.ops) == 1 \
+                and isinstance(node.ops[0], (ast.Gt, ast.GtE)):
+            node.left, node.comparators[0] = node.comparators[0], node.left
+            node.ops = [ast.Lt() if isinstance(node.ops[0], ast.Gt) else ast.LtE()]
+            count += 1
+    return count
+
+
 class Module:
     def __init__(self, name, path):
         self.name = name
@@ -85,6 +100,7 @@ class Module:
         except SyntaxError as err:  # a tree that does not compile
             raise AnalysisError('cannot parse {0}: {1}'.format(path, err))
         self.inlined_temporaries = inline_test_temporaries(self.tree)
+        self.oriented_comparisons = orient_comparisons(self.tree)
         self.funcs = {}      # qualname -> FunctionDef
         self.classes = {}    # name -> ClassDef
         self.func_class = {}  # qualname -> class name or None
